@@ -23,7 +23,6 @@ sufficient decrease.
 
 import logging
 import warnings
-from copy import copy
 from typing import Optional
 
 import numpy as np
@@ -249,6 +248,9 @@ def line_search(
         return sf.grad(np.clip(x0 + alpha * d, lb, ub)).dot(d)
 
     task = b"START"
+    # best trial so far: must be strictly better than the starting point
+    best_stp: Optional[float] = None
+    best_f: float = f0
     f_m1 = f0
     dphi_m1 = dphi0
     _iter = 0
@@ -291,13 +293,12 @@ def line_search(
             )
 
         if task[:2] == b"FG":
-            stp_old: float = copy(steplength_0)
-            f_m1_old: float = copy(f_m1)
             steplength_0 = steplength
             # trial points are projected: x0 + stpmax * d can exceed a bound by one ulp
             f_m1, dphi_m1 = sf.fun_and_grad(np.clip(x0 + steplength * d, lb, ub))
             dphi_m1 = dphi_m1.dot(d)
-            best_stp = steplength if f_m1 < f_m1_old else stp_old
+            if f_m1 < best_f:
+                best_stp, best_f = steplength, f_m1
         else:
             break
         _iter += 1
@@ -311,6 +312,10 @@ def line_search(
             return None
 
     if task[:4] != b"CONV" and task[:4] != b"WARN":
+        return None
+
+    # no trial point is better than the starting point: the line search failed
+    if best_stp is None:
         return None
 
     steplength = best_stp
